@@ -20,7 +20,8 @@ pub fn builtin_length(x: Either![IStr, ArrValue, ObjValue, FuncVal]) -> usize {
 		A(x) => x.chars().count(),
 		B(x) => x.len(),
 		C(x) => x.len(),
-		D(f) => f.params_len(),
+		// Number of parameters, including the ones with a default value.
+		D(f) => f.params().len(),
 	}
 }
 
